@@ -47,7 +47,8 @@ Init == \E d \in 1..Len(Docs) : \E cap \in Caps : \E c \in Comps(Min(Len(Docs[d]
           /\ s = InitBuf(cap, WithP(c, PS, 0))
 Done == out # <<>> /\ (out[Len(out)].res = "err" \/ (out[Len(out)].res = "none" /\ s.dlv = Len(inp) /\ s.sc = <<>>))
 Call == /\ ~Done /\ Len(out) < 3 * Len(inp) + 12
-        /\ LET n == NextCallB(S3, cfg, inp, r, s) IN r' = n.r /\ s' = n.s /\ out' = Append(out, n.res)
+        /\ LET n == NextCallB(S3, cfg, inp, r, s) IN
+             r' = n.r /\ s' = n.s /\ out' = Append(out, IF n.res.res = "none" THEN [res |-> "none", pause |-> n.s.dlv < Len(inp)] ELSE n.res)
         /\ UNCHANGED <<inp, cfg>>
 Next == Call
 Spec == Init /\ [][Next]_vars
